@@ -384,6 +384,8 @@ def run_generic(ctx):
     pick_samples(ctx)
     if ctx.prop in ("C01", "C02", "C04", "C07", "C09", "C10"):
         design_mc(ctx)
+    if ctx.prop == "C05":
+        views_mc(ctx)
     cases = list(ctx.cases.values())
     for variant in ("dbg", "rel"):
         ev = cfg["events"] == "all" or (cfg["events"] and (variant == "dbg" or not ctx.quick()))
@@ -903,6 +905,23 @@ def design_mc(ctx):
             fs, n, st["distinct"], st["wall_s"]))
     ctx.extra["design_model_checking"] = {"module": "spec/MC_SasLexer.tla", "invariants": DESIGN_INVS.split() + ["Progress"],
                                           "runs": runs}
+
+
+def views_mc(ctx):
+    """C05 at the design level: spec/MC_Views.tla enumerates every buffer satisfying the buffer invariant over small
+    texts and checks bulk view = accessors = text (formulas of buffer.rs in spec/Buffer.tla)."""
+    n, k = (7, 5) if ctx.quick() else (9, 6)
+    cfg = "SPECIFICATION Spec\nINVARIANT ViewsAgree ViewsMatchText\nCONSTANTS\n  N = %d\n  K = %d\nCHECK_DEADLOCK FALSE\n" % (n, k)
+    rc, out, wall = common.tlc("MC_Views", cfg, ctx.dir, "mc-views", workers=8, timeout=1800, heap="8g")
+    if "Model checking completed. No error has been found." not in out:
+        raise ToolError("MC_Views failed:\n" + out[-1500:])
+    st = common.parse_tlc_stats(out)
+    ctx.states += st["distinct"]
+    ctx.transitions += st["states"]
+    ctx.extra["design_model_checking"] = {"module": "spec/MC_Views.tla", "invariants": ["ViewsAgree", "ViewsMatchText"],
+                                          "text_length_max": n, "tokens_max": k, "distinct_buffers": st["distinct"],
+                                          "wall_s": round(wall, 1), "exhaustive": True}
+    log("[mc] MC_Views N=%d K=%d: %d buffers, %.0fs, bulk view = accessors = text" % (n, k, st["distinct"], wall))
 
 
 # ----------------------------------------------------------------------------- Gen (C12-C14)
